@@ -874,3 +874,117 @@ reg("C07", ["fileset"], "fileset histories: setfile rewrites (add/remove/reorder
     ["setfile edits change (ino, mtime); clock readings are positive and distinct; a setfile never lists a name twice; a name denotes the same table while it stays listed; handles outlive their iterators", "stat/mtime granularity, mmap-after-delete and real time are OS contracts (partial)"])
 reg("C12", ["corrupt"], "tables from the real writer (all six codecs, tiny blocks), then 14 (quick) / 60 (thorough) damaged copies each: 1, 2, 3 flipped bits and bursts <= 32 bits (LSB-first bit order) inside one block's stored bytes or checksum field, data blocks and the index block alike; mtbl_verify built from the tree run on every copy, a verifying reader drained in a child process (entries returned before it stops), get() on a key of the damaged block; non-trivial = the batch contains both aborting readers and FAILED verify runs",
     ["asserts are enabled", "the two-/three-bit guarantee needs blocks shorter than 256 MiB (period of the CRC-32C generator)", "file-order bursts straddling the checksum field and the stored bytes are covered only when they are bursts in codeword order"])
+
+
+# ------------------------------------------------------------------ compression wrappers (C15)
+CZ_LEVELS = ["d", "-1000", "-7", "-1", "0", "1", "3", "6", "9", "10", "12", "16", "19", "22", "23", "1000"]
+CZ_KINDS = ["zero", "random", "text", "period7", "ff", "ramp", "mixed"]
+
+class CzFamily(Family):
+    """C15: mtbl_compress / mtbl_compress_level / mtbl_decompress in a child process, every library call the wrappers make
+    reported by interposers ("#lib" facts); the Lean wrapper model is run over exactly those facts."""
+    name = "cz"
+    def cases(self, pid, seed, tier, mult, stats):
+        for c in self.corpus(pid):
+            yield c
+        rng = Rng(seed * 104729 + 5)
+        # names
+        lines = ["reset"] + ["cz.tostr %d" % t for t in range(0, 9)]
+        names = ["none", "snappy", "zlib", "lz4", "lz4hc", "zstd"]
+        for n in names:
+            for v in (n, n.upper(), n.capitalize(), n + "x", n[:-1], "x" + n, n[0].upper() + n[1:-1] + n[-1].upper()):
+                lines.append("cz.name %s" % v)
+        for v in ("gzip", "lz", "zstd1", "LZ4HCX", "0", "snappy-", "ZLIB", "zLiB", "lz4h", "deflate", "brotli"):
+            lines.append("cz.name %s" % v)
+        yield ("cz:names", lines)
+        # every length 0..64 x algorithms x contents x levels
+        kinds_small = CZ_KINDS[:4] if tier == "thorough" else CZ_KINDS[:2]
+        for algo in (1, 2, 3, 4, 5):
+            for kind in kinds_small:
+                nl = 6 if tier == "thorough" else 2
+                levels = ["d"] + [rng.pick(CZ_LEVELS[1:]) for _ in range(max(1, int((nl - 1) * mult)))]
+                for lvl in levels:
+                    lines = ["reset"]
+                    for n in range(0, 65):
+                        stats.bump("cz_algo_%d" % algo); stats.bump("cz_level_" + ("default" if lvl == "d" else "below_min" if int(lvl) < -1 else "above_max" if int(lvl) > 22 else "in_range_or_clamped"))
+                        stats.bump("cz_len<=64")
+                        lines += ["@b cz.gen %s %d %d" % (kind, n, seed + n), "@s cz.c %d %s $b" % (algo, lvl), "?s cz.d %d $s" % algo]
+                    yield ("cz:small:%d:%s:%s" % (algo, kind, lvl), lines)
+        # structured / random contents at larger sizes, through the model (sizes the line protocol carries comfortably)
+        sizes = [100, 127, 128, 255, 256, 1000, 1023, 1024, 4096, 16383, 16384, 65536, 100000, 262144]
+        for i in range(budget(tier, 40, 400, mult)):
+            algo = 1 + rng.below(5); kind = rng.pick(CZ_KINDS); lvl = rng.pick(CZ_LEVELS)
+            n = rng.pick(sizes) + rng.pick([0, 0, 1, rng.below(100)])
+            if tier == "quick" and n > 70000 and not rng.chance(1, 3):
+                n = n % 70000
+            stats.bump("cz_algo_%d" % algo); stats.bump("cz_kind_" + kind); stats.bump("cz_len_%s" % ("<=1k" if n <= 1024 else "<=64k" if n <= 65536 else ">64k"))
+            lines = ["reset", "@b cz.gen %s %d %d" % (kind, n, seed * 1000 + i), "@s cz.c %d %s $b" % (algo, lvl), "?s cz.d %d $s" % algo]
+            if algo != 2 and rng.chance(1, 3):
+                # a damaged stream: must be refused or decoded, never abort (C15_never_abort (3); zlib is excluded: its wrapper asserts)
+                g = bytes(rng.below(256) for _ in range(rng.pick([0, 1, 3, 4, 5, 9, 20, 64])))
+                if algo in (3, 4) and len(g) >= 4:
+                    # the lz4 wrappers trust the 4-byte size prefix (up to INT_MAX bytes are allocated and reported): keep it small or out of range
+                    g = rng.pick([bytes([rng.below(200), rng.below(2), 0, 0]), b"\xff\xff\xff\xff", b"\x00\x00\x00\x80"]) + g[4:]
+                lines.append("cz.d %d %s" % (algo, hx(g)))
+                stats.bump("cz_garbage_decompress")
+            yield ("cz:mid:%d:%d" % (seed, i), lines)
+        # megabytes: round trip on the real side only (highly compressible and incompressible; zlib ratios above 500:1)
+        big = [(k, n) for k in ("zero", "ff", "period7", "random", "text", "mixed") for n in (1000000, 1048576, 4194317)]
+        lines = ["reset"]
+        for i in range(budget(tier, 14, 90, mult)):
+            kind, n = rng.pick(big); algo = 1 + rng.below(5); lvl = rng.pick(CZ_LEVELS)
+            if i < 5:
+                algo = 2; kind = ("zero", "ff", "period7", "zero", "text")[i]; n = (1000000, 1048576, 1000000, 4194317, 1048576)[i]; lvl = ("d", "6", "9", "1", "d")[i]
+            stats.bump("cz_big_algo_%d" % algo); stats.bump("cz_big_kind_" + kind)
+            lines.append("cz.big %d %s %s %d %d" % (algo, lvl, kind, n, seed + i))
+        yield ("cz:big:%d" % seed, lines)
+    def oracle(self, res):
+        fails = []
+        last_in = None; last_c = None
+        names = {}
+        for i, r in enumerate(res):
+            t = r["req"].split(" "); op = t[0]; real = r["real"]
+            if op == "cz.gen":
+                last_in = real.split(" ")[1] if real.startswith("buf ") else None
+            elif op == "cz.c":
+                last_c = None
+                if not (real.startswith("ok ") or real == "fail"):
+                    fails.append(("C15", "mtbl_compress%s(algo=%s, %d bytes) did not return: %s" % ("" if t[2] == "d" else "_level[%s]" % t[2], t[1], 0 if t[3] == "-" else len(t[3]) // 2, real), i))
+                elif real.startswith("ok "):
+                    last_c = (t[1], t[3], real.split(" ")[1])
+            elif op == "cz.d":
+                if last_c and t[1] == last_c[0] and t[2] == last_c[2]:
+                    if real != "ok " + last_c[1]:
+                        fails.append(("C15", "algo=%s: compress succeeded on %d bytes but decompress of its output gave %s" % (t[1], 0 if last_c[1] == "-" else len(last_c[1]) // 2, real[:60]), i))
+                    last_c = None
+                elif t[1] != "2" and not (real.startswith("ok ") or real == "fail"):
+                    fails.append(("C15", "mtbl_decompress(algo=%s) of damaged input did not return: %s" % (t[1], real[:60]), i))
+            elif op == "cz.big":
+                if real not in ("ok", "cfail"):
+                    fails.append(("C15", "round trip of %s bytes (%s) algo=%s level=%s: %s" % (t[4], t[3], t[1], t[2], real), i))
+            elif op == "cz.tostr":
+                names[int(t[1])] = real
+                if (int(t[1]) < 6) != real.startswith("name "):
+                    fails.append(("C15", "type_to_str(%s) = %s" % (t[1], real), i))
+            elif op == "cz.name":
+                canon = {"none": 0, "snappy": 1, "zlib": 2, "lz4": 3, "lz4hc": 4, "zstd": 5}
+                want = canon.get(t[1].lower())
+                if (want is None and real != "fail") or (want is not None and real != "type %d" % want):
+                    fails.append(("C15", "type_from_str(%r) = %s" % (t[1], real), i))
+        return fails
+    def tie_props(self, res, idx):
+        return {"C15"}
+    def nontrivial(self, pid, lines, res):
+        return any(r["req"].startswith(("cz.c", "cz.big")) and r["real"].startswith("ok") for r in res)
+    def keep_prefix(self, lines):
+        return 1
+
+FAMILIES["cz"] = CzFamily
+
+reg("C15", ["cz"], "every length 0..64 x 5 algorithms x representative contents (zero, random; thorough: + text, period-7) x default level and levels from -1000 to 1000; "
+    "structured/random contents (zero, ff, period-7, text, random, ramp, mixed runs) at sizes 100..262144 straddling 127/128, 1023/1024, 16383/16384; damaged streams into the non-zlib decompressors; "
+    "megabyte buffers (1 000 000, 1 048 576, 4 194 317 bytes; constant, periodic, text, random) round-tripped on the real side; each call in a child process so that an abort is a result; "
+    "every library call made by the wrappers is reported by interposers compiled into compression.c (harness/tu/tu_compression.c) and the Lean wrapper model is evaluated over exactly those facts "
+    "(a call with another level, capacity or size than the model predicts is a miss and surfaces as a disagreement); names: all enum values, case variants, near misses; non-trivial = at least one successful compress",
+    ["the four libraries meet the contracts of LibOK (round trip given enough room, deflateBound guarantee, recorded content sizes); what they emit is outside the model (partial)",
+     "malloc/realloc succeed; deflateInit/inflateInit succeed for levels in -1..9", "megabyte inputs are exercised on the real code only (oracle, no model run)"])
